@@ -5,6 +5,7 @@ package main
 
 import (
 	"encoding/hex"
+	"fmt"
 	"sort"
 
 	"github.com/shopspring/decimal"
@@ -30,9 +31,16 @@ func tokJ(t parser.Token) J {
 	return J{"ty": int(t.Type), "v": hx(t.Value), "p": posJ(t.Pos), "e": posJ(t.End)}
 }
 
-func lexAll(input string) []J {
+// lexAll returns the real lexer's whole token stream.  A panic inside the lexer is recorded
+// as a final pseudo token {"panic": message} (the model never panics: that is a theorem), so
+// that the run goes on and the driver reports it.
+func lexAll(input string) (out []J) {
+	defer func() {
+		if r := recover(); r != nil {
+			out = append(out, J{"panic": fmt.Sprint(r), "ty": 0, "v": "", "p": []int{0, 0, 0}, "e": []int{0, 0, 0}})
+		}
+	}()
 	l := parser.NewLexer(input)
-	var out []J
 	for {
 		t := l.Next()
 		out = append(out, tokJ(t))
